@@ -17,10 +17,12 @@ import (
 	"context"
 	"crypto/ed25519"
 	"encoding/binary"
+	"encoding/json"
 	"errors"
 	"fmt"
 	"io"
 	"os"
+	"path/filepath"
 	"runtime"
 	"strconv"
 	"strings"
@@ -553,9 +555,6 @@ func normalise(c *Case) {
 				}
 			}
 		}
-		if st.Proto {
-			st.O.Script, st.I.Script = nil, nil
-		}
 		if len(st.O.Script) > 0 && len(st.I.Script) > 0 {
 			st.I.Script = nil
 		}
@@ -584,9 +583,39 @@ func run(c Case) (vstat.Outcome, error)       { return runMode(c, opts{bubble: t
 func runStress(c Case) (vstat.Outcome, error) { return runMode(c, opts{}) }
 func runFuzz(c Case) (vstat.Outcome, error)   { return runMode(c, opts{bubble: true}) }
 
+// A panic in a goroutine the handshake code starts itself cannot be recovered and kills the
+// process; the running case is therefore flushed first, and check.json names the fatal
+// patterns, so the driver reports the death of a shard as a violation with this case.
+func writeCurrentCase(c Case) {
+	dir := os.Getenv("VERIF_REPLAY_OUT")
+	if dir == "" || os.Getenv("VERIF_REPLAY") != "" {
+		return
+	}
+	os.MkdirAll(dir, 0o755)
+	b, err := json.Marshal(map[string]any{"property": prop, "test": currentTest,
+		"error": "the process died (panic / fatal error inside the handshake) while this case was running", "case": c})
+	if err != nil {
+		return
+	}
+	tmp := filepath.Join(dir, ".current-case.tmp")
+	if os.WriteFile(tmp, b, 0o644) == nil {
+		os.Rename(tmp, filepath.Join(dir, "current-case.json"))
+	}
+}
+
+func removeCurrentCase() {
+	if dir := os.Getenv("VERIF_REPLAY_OUT"); dir != "" {
+		os.Remove(filepath.Join(dir, "current-case.json"))
+	}
+}
+
+var currentTest = "TestRandom"
+
 func runMode(c Case, o opts) (out vstat.Outcome, err error) {
 	bubble := o.bubble
 	normalise(&c)
+	writeCurrentCase(c)
+	defer removeCurrentCase()
 	if len(c.Steps) == 0 {
 		return out, nil
 	}
@@ -691,7 +720,7 @@ func descr(r sideResult) string {
 
 func forging(kind int) bool {
 	switch kind {
-	case kCorrupt, kReplace, kInjectAck, kLenField, kBadType:
+	case kCorrupt, kReplace, kInjectAck, kLenField, kBadType, kSubstitute:
 		// a shorter length field turns Ack{error} into Ack{Null}; another type byte makes the proto
 		// handshake read an Ack as a Proto: both can fabricate the frame a side is waiting for
 		return true
@@ -749,17 +778,28 @@ func checkStep(rt stepRT, r stepResult, poolUsedBefore, successBefore bool, cls 
 		cls["sync-pipe"] = true
 	}
 
+	classifyTypes(st, r, oHonest, iHonest, cls)
+
 	if st.Proto {
 		cls["proto-handshake"] = true
-		if r.i.ok {
+		if iHonest && r.i.ok {
 			if jerr := justifyProtoIn(r.delivered[0], st.PAllowed); jerr != nil {
 				return false, fmt.Errorf("incoming proto handshake succeeded without justification: %v", jerr)
 			}
 		}
-		if r.o.ok {
+		if oHonest && r.o.ok {
 			if jerr := justifyProtoOut(r.delivered[1]); jerr != nil {
 				return false, fmt.Errorf("outgoing proto handshake succeeded without justification: %v", jerr)
 			}
+		}
+		if !oHonest || !iHonest {
+			cls["raw-frame-adversary-proto"] = true
+			d := r.delivered[0]
+			if !iHonest {
+				d = r.delivered[1]
+			}
+			_, _, _, ferr := nextFrame(d)
+			return ferr == nil, nil
 		}
 		if !applied && !cancelled && r.o.ok != r.i.ok {
 			return false, fmt.Errorf("undisturbed proto handshake: outgoing %s, incoming %s", descr(r.o), descr(r.i))
@@ -846,6 +886,47 @@ func checkStep(rt stepRT, r stepResult, poolUsedBefore, successBefore bool, cls 
 		cls["legacy-version-0-peer"] = true
 	}
 	return nontrivial, nil
+}
+
+var typeNames = map[byte]string{msgTypeCred: "cred", msgTypeAck: "ack", msgTypeProto: "proto"}
+
+// classifyTypes labels every well-formed frame of a known type that an honest side received
+// in a position where the exchange expects another type (or, for a duplicate, the same type again).
+func classifyTypes(st Step, r stepResult, oHonest, iHonest bool, cls map[string]bool) {
+	hs := "cred"
+	expect := map[string][][]byte{"incoming": {{msgTypeCred}, {msgTypeAck}}, "outgoing": {{msgTypeCred, msgTypeAck}, {msgTypeAck}}}
+	if st.Proto {
+		hs = "proto"
+		expect = map[string][][]byte{"incoming": {{msgTypeProto}}, "outgoing": {{msgTypeProto, msgTypeAck}}}
+	}
+	for _, x := range []struct {
+		honest bool
+		who    string
+		d      []byte
+	}{{oHonest, "outgoing", r.delivered[1]}, {iHonest, "incoming", r.delivered[0]}} {
+		if !x.honest {
+			continue
+		}
+		rest := x.d
+		for pos := 0; pos < len(expect[x.who]); pos++ {
+			tp, _, nrest, err := nextFrame(rest)
+			if err != nil {
+				break
+			}
+			rest = nrest
+			name, knownType := typeNames[tp]
+			if !knownType {
+				break
+			}
+			ok := false
+			for _, e := range expect[x.who][pos] {
+				ok = ok || e == tp
+			}
+			if !ok {
+				cls[fmt.Sprintf("unexpected-type:%s:%s:pos%d:%s", hs, x.who, pos, name)] = true
+			}
+		}
+	}
 }
 
 func classifyHonest(st Step, rt stepRT, r stepResult, cls map[string]bool) {
@@ -1047,8 +1128,54 @@ func genScriptStep(rt *rapid.T, base Step) Step {
 		script = append([]Frame{{Kind: fAck}}, script...) // out of order: ack first
 	case 5: // no ack at all
 	}
+	if rapid.IntRange(0, 3).Draw(rt, "wrongType") == 0 {
+		// a well-formed frame of another type (or the same frame again) in a chosen position
+		pos := rapid.IntRange(0, len(script)-1).Draw(rt, "wrongPos")
+		script[pos] = genAnyFrame(rt, advSide.Acc, hon.Acc, ver)
+	}
 	advSide.Script = script
 	advSide.CloseEnd = rapid.Bool().Draw(rt, "closeEnd")
+	return st
+}
+
+// genAnyFrame draws a well-formed frame of any of the three types.
+func genAnyFrame(rt *rapid.T, adv, hon int, ver uint32) Frame {
+	switch rapid.IntRange(0, 4).Draw(rt, "anyFrame") {
+	case 0:
+		return Frame{Kind: fAck}
+	case 1:
+		return Frame{Kind: fAck, AckErr: rapid.IntRange(1, 8).Draw(rt, "ackErr")}
+	case 2:
+		return Frame{Kind: fProto, Proto: rapid.SampledFrom([]int{0, 0, 1}).Draw(rt, "proto"), Enc: rapid.SliceOfN(rapid.IntRange(0, 2), 0, 2).Draw(rt, "enc")}
+	case 3:
+		return Frame{Kind: fCred, VerEnc: 1, Version: ver, Client: 1}
+	default:
+		return Frame{Kind: fCred, CredType: 1, VerEnc: 1, Version: ver, Client: 1, Ident: adv, Signer: adv, From: adv, To: hon}
+	}
+}
+
+// genProtoScriptStep: a raw-frame adversary on either side of the proto handshake.
+func genProtoScriptStep(rt *rapid.T) Step {
+	st := genProtoStep(rt)
+	if rapid.Bool().Draw(rt, "allowDRPC") {
+		st.PAllowed = []int{0}
+	}
+	n := rapid.IntRange(1, 3).Draw(rt, "nFrames")
+	var script []Frame
+	for i := 0; i < n; i++ {
+		script = append(script, genAnyFrame(rt, 2, 1, 13))
+	}
+	if rapid.IntRange(0, 3).Draw(rt, "dup") == 0 {
+		script = append(script, script[len(script)-1])
+	}
+	if rapid.IntRange(0, 5).Draw(rt, "garbage") == 0 {
+		script = append(script, Frame{Kind: fRaw, Raw: rapid.SliceOfN(rapid.Byte(), 1, 12).Draw(rt, "raw")})
+	}
+	if rapid.Bool().Draw(rt, "advIsO") {
+		st.O.Script, st.O.CloseEnd = script, rapid.Bool().Draw(rt, "closeEnd")
+	} else {
+		st.I.Script, st.I.CloseEnd = script, rapid.Bool().Draw(rt, "closeEnd")
+	}
 	return st
 }
 
@@ -1094,6 +1221,10 @@ func genCase(rt *rapid.T) Case {
 		}
 		c.Steps = append(c.Steps, st)
 	case 6, 7: // raw-frame adversary
+		if rapid.IntRange(0, 3).Draw(rt, "protoAdversary") == 0 {
+			c.Steps = append(c.Steps, genProtoScriptStep(rt))
+			break
+		}
 		base := genHonest(rt, true)
 		if rapid.IntRange(0, 2).Draw(rt, "nodes") != 0 {
 			c.NodeMask |= 1 << base.I.Acc
@@ -1163,12 +1294,15 @@ func genStress(rt *rapid.T) Case {
 			c.Steps = append(c.Steps, genProtoStep(rt))
 		case 1:
 			st := genScriptStep(rt, genHonest(rt, true))
+			if rapid.IntRange(0, 3).Draw(rt, "protoAdversary") == 0 {
+				st = genProtoScriptStep(rt)
+			}
 			st.O.CloseEnd, st.I.CloseEnd = true, true
 			c.Steps = append(c.Steps, st)
 		case 2:
 			st := genHonest(rt, true)
 			st.Tampers = []Tamper{{Dir: rapid.IntRange(0, 1).Draw(rt, "d"), Idx: rapid.IntRange(0, 1).Draw(rt, "i"),
-				Kind: rapid.SampledFrom([]int{kCorrupt, kTruncEOF, kBadType, kDup}).Draw(rt, "k"), A: rapid.IntRange(5, 300).Draw(rt, "a"), B: rapid.IntRange(0, 254).Draw(rt, "b")}}
+				Kind: rapid.SampledFrom([]int{kCorrupt, kTruncEOF, kBadType, kDup, kSubstitute, kInjectAck}).Draw(rt, "k"), A: rapid.IntRange(5, 300).Draw(rt, "a"), B: rapid.IntRange(0, 254).Draw(rt, "b")}}
 			c.Steps = append(c.Steps, st)
 		default:
 			c.Steps = append(c.Steps, genHonest(rt, rapid.IntRange(0, 3).Draw(rt, "compat") != 0))
@@ -1358,6 +1492,91 @@ func enumerate(yield func(Case) bool) {
 			}
 		}
 	}
+	// (f) every frame type in every position of both handshakes, towards both sides: as a
+	// raw-frame adversary (the right frames except for one position; duplicates) and as a
+	// man-in-the-middle substitution / insertion / duplication
+	protoBase := func() Step {
+		st := Step{Proto: true, PProto: 0, PEnc: []int{1, 0}, PAllowed: []int{0}, PSupp: []int{1, 0}}
+		st.O.Sees, st.I.Sees = -1, -1
+		return st
+	}
+	anyFrames := func(adv, hon int) []Frame {
+		return []Frame{{Kind: fAck}, {Kind: fAck, AckErr: 1}, {Kind: fProto, Enc: []int{1}}, {Kind: fProto},
+			{Kind: fCred, VerEnc: 1, Version: 13, Client: 1},
+			{Kind: fCred, CredType: 1, VerEnc: 1, Version: 13, Client: 1, Ident: adv, Signer: adv, From: adv, To: hon}}
+	}
+	for hs := 0; hs < 2; hs++ {
+		for advIsO := 0; advIsO < 2; advIsO++ {
+			for verify := 0; verify < 2; verify++ {
+				if hs == 1 && verify == 1 {
+					continue
+				}
+				adv, hon := 2, 1
+				right := []Frame{{Kind: fCred, CredType: 1, VerEnc: 1, Version: 13, Client: 1, Ident: adv, Signer: adv, From: adv, To: hon}, {Kind: fAck}}
+				if hs == 1 {
+					right = []Frame{{Kind: fProto, Enc: []int{1, 0}}}
+				}
+				var scripts [][]Frame
+				for pos := 0; pos <= len(right); pos++ {
+					for _, f := range anyFrames(adv, hon) {
+						sc := append([]Frame(nil), right...)
+						if pos < len(right) {
+							sc[pos] = f
+						} else {
+							sc = append(sc, f) // one frame too many
+						}
+						scripts = append(scripts, sc)
+					}
+					if pos < len(right) { // the frame of this position twice
+						sc := append(append([]Frame(nil), right[:pos+1]...), right[pos:]...)
+						scripts = append(scripts, sc)
+					}
+				}
+				for si, sc := range scripts {
+					st := baseStep(13, verify == 1)
+					if hs == 1 {
+						st = protoBase()
+					}
+					st.Sync = si%2 == 1
+					if advIsO == 1 {
+						st.O.Acc, st.O.Script, st.O.CloseEnd = adv, sc, si%3 == 0
+					} else {
+						st.I.Acc, st.O.Acc, st.O.AcctCheck = adv, hon, verify == 1
+						st.I.Script, st.I.CloseEnd = sc, si%3 == 0
+					}
+					if !emit(Case{Steps: []Step{st}}) {
+						return
+					}
+				}
+			}
+		}
+		for dir := 0; dir < 2; dir++ {
+			for idx := 0; idx < 2; idx++ {
+				if hs == 1 && idx == 1 {
+					continue
+				}
+				for _, k := range []int{kSubstitute, kInjectAck, kDup, kBadType, kDrop, kHold} {
+					for a := 0; a < 6; a++ {
+						if a > 0 && (k == kInjectAck || k == kDup || k == kDrop || k == kHold) {
+							break
+						}
+						st := baseStep(13, a%2 == 0)
+						if hs == 1 {
+							st = protoBase()
+							if a >= 3 {
+								st.PEnc = nil // the accepting side answers with an Ack
+							}
+						}
+						st.Sync = a%2 == 1
+						st.Tampers = []Tamper{{Dir: dir, Idx: idx, Kind: k, A: a}}
+						if !emit(Case{Steps: []Step{st}}) {
+							return
+						}
+					}
+				}
+			}
+		}
+	}
 }
 
 // padFor finds the padding that makes the body of a credentials frame exactly target bytes.
@@ -1426,18 +1645,23 @@ func scriptVariants(adv, hon int, ver uint32) (res [][]Frame) {
 
 func single(t *testing.T) {
 	outerT = t
+	currentTest = strings.SplitN(t.Name(), "/", 2)[0]
 	prev := runtime.GOMAXPROCS(1) // one P: the per-P sync.Pool behaves the same in every run
 	t.Cleanup(func() { runtime.GOMAXPROCS(prev) })
 }
 
 func TestRandom(t *testing.T)     { single(t); vstat.Check(t, prop, genCase, run) }
 func TestExhaustive(t *testing.T) { single(t); vstat.Enumerate(t, prop, enumerate, run) }
-func TestStress(t *testing.T)     { outerT = t; vstat.Check(t, prop, genStress, runStress) }
+func TestStress(t *testing.T) {
+	outerT, currentTest = t, "TestStress"
+	vstat.Check(t, prop, genStress, runStress)
+}
 
 func TestReplay(t *testing.T) {
 	t.Run("TestRandom", func(t *testing.T) { single(t); vstat.Replay(t, prop, "TestRandom", run) })
 	t.Run("TestExhaustive", func(t *testing.T) { single(t); vstat.Replay(t, prop, "TestExhaustive", run) })
 	t.Run("TestStress", func(t *testing.T) { outerT = t; vstat.Replay(t, prop, "TestStress", runStress) })
+	t.Run("FuzzIncomingFrames", func(t *testing.T) { single(t); vstat.Replay(t, prop, "FuzzIncomingFrames", runFuzz) })
 	for _, n := range []string{"TestRegPoolLeak", "TestRegPoolLeakFalseReject", "TestRegRelay", "TestRegReplay", "TestRegFinalAckLost"} {
 		t.Run(n, func(t *testing.T) { single(t); vstat.Replay(t, prop, n, run) })
 	}
@@ -1508,6 +1732,12 @@ func fuzzCase(cfg byte, data []byte) Case {
 		st.ChunkOI, st.ChunkIO = []int{5, 3}, []int{4, 9}
 	}
 	st.Direct = cfg&32 != 0
+	if cfg&128 != 0 { // the proto handshake instead of the credential handshake
+		st.Proto, st.PProto, st.PEnc, st.PAllowed, st.PSupp = true, 0, []int{1, 0}, []int{0}, []int{1, 0}
+		if cfg&32 != 0 {
+			st.PEnc = nil
+		}
+	}
 	script := []Frame{{Kind: fRaw, Raw: data}}
 	if cfg&1 == 0 {
 		st.O.Script, st.O.CloseEnd = script, cfg&64 != 0
@@ -1518,7 +1748,7 @@ func fuzzCase(cfg byte, data []byte) Case {
 }
 
 // FuzzIncomingFrames feeds arbitrary bytes to IncomingHandshake (cfg bit 0 clear) or
-// OutgoingHandshake (set): the call must return — error or success, no panic, no hang
+// OutgoingHandshake (set), or with cfg bit 7 to Incoming/OutgoingProtoHandshake: the call must return — error or success, no panic, no hang
 // beyond the deadline — and a success must be justified by the bytes (valid credentials
 // where verification is required, accepted version, Ack{Null}).
 func FuzzIncomingFrames(f *testing.F) {
@@ -1544,12 +1774,24 @@ func FuzzIncomingFrames(f *testing.F) {
 		}
 	}
 	f.Add(byte(0), []byte{1, 0xff, 0xff, 0xff, 0xff})
-	f.Add(byte(3), []byte{2, 0, 0, 0, 0})
+	// every well-formed frame type first, second and twice, for both handshakes and both sides
+	wellFormed := [][]byte{substituteFrame(0, 0), substituteFrame(1, 0), substituteFrame(2, 0), substituteFrame(3, 0),
+		buildFrame(Frame{Kind: fProto, Enc: []int{1, 0}}, nil), buildFrame(Frame{Kind: fProto}, nil),
+		buildFrame(Frame{Kind: fCred, CredType: 1, VerEnc: 1, Version: 13, Client: 1, Ident: 0, Signer: 0, From: 0, To: 1}, nil),
+		buildFrame(Frame{Kind: fCred, CredType: 1, VerEnc: 1, Version: 13, Client: 2, Ident: 1, Signer: 1, From: 1, To: 0}, nil)}
+	for _, cfg := range []byte{0, 1, 2, 3, 128, 129, 128 | 32, 129 | 32, 4 | 64, 5 | 64, 128 | 8 | 64, 129 | 16 | 64} {
+		for _, a := range wellFormed {
+			f.Add(cfg, a)
+			for _, b := range wellFormed {
+				f.Add(cfg, append(append([]byte(nil), a...), b...))
+			}
+		}
+	}
 	f.Fuzz(func(t *testing.T, cfg byte, data []byte) {
 		if len(data) > sizeLimit+4096 {
 			return
 		}
-		outerT = t
+		outerT, currentTest = t, "FuzzIncomingFrames"
 		c := fuzzCase(cfg, data)
 		o, err := runFuzz(c)
 		if err != nil {
